@@ -580,6 +580,34 @@ func init() {
 		meta.NCases = len(cases)
 		meta.Files, meta.Offsets = writeCasesInterned(outDir, "cases", "From KV Require Import Model.Base Model.Json Model.Schema Model.GoTypes Exec.C18Exec.", "gcase", "judge_C18", terms, meta.Shard)
 		meta.IndexMap = idx
+		// structs that embed structs, against Model/Fields.v (meta.Cases: the cases above, then these)
+		if replay == "" || strings.Contains(replay, "fields") {
+			var fcases []C18Fields
+			if replay != "" {
+				fcases = loadReplayCases[C18Fields](replay)
+			} else {
+				fcases = c18FieldsCases(NewRng(seed^0xf1e1d5), n/2)
+			}
+			var fterms []string
+			for i := range fcases {
+				fo, term := runC18Fields(&fcases[i])
+				meta.Cases = append(meta.Cases, map[string]any{"input": map[string]any{"embedding": fcases[i]}, "go": fo})
+				meta.Histogram["embedding trees"]++
+				if term == "" {
+					meta.GoViolation = append(meta.GoViolation, map[string]any{"signature": "embedding:" + strings.SplitN(fo.Err, ":", 2)[0], "cases": []any{fcases[i]}, "go_observation": fo, "judgement": "struct with embedded structs: " + fo.Err})
+					continue
+				}
+				if !fo.Accepted {
+					meta.Histogram["embedding trees whose encoding is rejected"]++
+				}
+				fterms = append(fterms, term)
+				meta.IndexMap = append(meta.IndexMap, len(cases)+i)
+			}
+			f2, off2 := writeCasesAt(outDir, "fields", "From KV Require Import Model.Base Model.Fields Exec.C18FieldsExec.", "fcase", "judge_fields", fterms, meta.Shard, len(terms))
+			meta.Files = append(meta.Files, f2...)
+			meta.Offsets = append(meta.Offsets, off2...)
+			meta.Histogram["embedding model comparisons"] = len(fterms)
+		}
 		writeMeta(outDir, meta)
 		fmt.Fprintf(os.Stderr, "C18: %d cases (%d to Coq)\n", len(cases), len(terms))
 	}
